@@ -16,4 +16,5 @@ def check(tier, seed):
                      "symbolic exception class (RuntimeError / other Exception / BaseException only): the in-flight marker is removed, no other "
                      "entry is left in flight, the cache invariant holds, non-RuntimeErrors propagate unchanged and RuntimeErrors are chained.  "
                      "Generated evaluators and product_by_order hold no state besides cache deletions, which are value-neutral (C10).")
+    d.run_battery("series_battery.py", ['fault'], "shapes <= (2,3), <= 2 infinite dimensions, orders <= 3, fixed list of index entries, 4x4 two-block problems; see replay/series_battery.py")
     return d.finish(level="proof", trusted_base=["contracts/series_index.py", "contracts/algorithm_evals.py"])
